@@ -260,6 +260,33 @@ class Loops:
         for i, (a, ia) in enumerate(int_syms):
             for b, ib in int_syms[:i]:
                 cands.append(eq(Lin.atom(a) - Lin.atom(b), ia.l - ib.l))
+        # bounds the body itself compares a carried variable against (x < E on a back-edge path, E loop
+        # invariant): candidates x < E and x <= E
+        if for_ctx is None and int_syms:
+            hav = {a for a, _ in int_syms}
+            I.quiet += 1
+            try:
+                trial = self._run_body(body, base.clone(), label, None)[0]
+            except Exception:
+                trial = []
+            finally:
+                I.quiet -= 1
+            seen_c = set()
+            for sb in trial:
+                for l in sb.pc[len(base.pc):]:
+                    if l[0] != "le":
+                        continue
+                    ats = atoms_deep(l[1])
+                    mine = [a for a in l[1].t if a in hav]
+                    if len(mine) != 1 or l[1].t[mine[0]] <= 0 or (ats & hav) != {mine[0]}:
+                        continue
+                    if any(x[0] in ("opq",) for x in ats):
+                        continue
+                    for c in (l, ("le", l[1] - 1)):
+                        k = (c[0], c[1].key())
+                        if k not in seen_c:
+                            seen_c.add(k)
+                            cands.append(c)
         for a, init in bool_syms:
             pass
         # candidates must hold on entry
